@@ -147,7 +147,7 @@ func libStreams(data []byte) ([][]string, error) {
 }
 
 // checkFileAgainstSpec is the C02 oracle for one file.
-func checkFileAgainstSpec(x *engine.X, shape string, data []byte, wantSorting []parquet.SortingColumn, maxRows int64) {
+func checkFileAgainstSpec(x *engine.X, shape string, data []byte, wantSorting []parquet.SortingColumn, maxRows int64, sourceSorting ...parquet.SortingColumn) {
 	f, by := pqCheck(data)
 	if reportIssues(x, shape, by["C02"]) {
 		return
@@ -161,7 +161,8 @@ func checkFileAgainstSpec(x *engine.X, shape string, data []byte, wantSorting []
 			x.Failf("malformed", shape+";code=rg-too-large", "row group %d has %d rows, MaxRowsPerRowGroup=%d", i, rg.NumRows, maxRows)
 			return
 		}
-		if len(rg.SortingColumns) != len(wantSorting) {
+		// (a row group written from a source row group that declares a sort order may carry that order over)
+		if len(rg.SortingColumns) != len(wantSorting) && !(len(sourceSorting) > 0 && len(rg.SortingColumns) == len(sourceSorting)) {
 			x.Failf("malformed", shape+";code=sorting-columns", "row group %d declares %d sorting columns, caller declared %d", i, len(rg.SortingColumns), len(wantSorting))
 			return
 		}
